@@ -43,7 +43,7 @@ def gen_cases(ctx):
             ids = rng.sample(range(1, 256), nj) if i % 2 else rng.sample(range(1, 30), nj)
             for k in [0] + ids:
                 profs[str(k)] = N.rand_profile(rng, base=base)
-        yield {"deep": deep,
+        yield {"deep": deep, "dup": (i % 3 == 1) and not deep and not hostile,
                "ids": ids, "offsets": {str(k): rng.choice([0, 0, rng.randrange(0, 2000)]) for k in ids},
                "no_children": [k for k in ids if rng.random() < 0.15] if not deep else [],
                "cls": {str(k): rng.choice(["meshnm", "meshnm", "mesh"]) for k in ids},
@@ -225,6 +225,22 @@ def _run(ctx, case, net):
                     r["addr_after_release"] = o.node_address
                     pump_until(nn, wn.t + 20 * W.MS)
                     r["lease_after_release"] = master.obj.dhcp_dict.get(k)
+                    if case.get("dup"):
+                        # a late copy of another node's old address request reaches the master now
+                        # that a higher slot below the same parent is free (copies of a request are
+                        # produced by the protocol itself: every node of the contact's level hears
+                        # and routes it); the lease the node lives on must not move
+                        par = net_ref.parent(old)
+                        sh = 3 * net_ref.level(par)
+                        cands = [j for j, a in master.obj.dhcp_dict.items() if j in joiners and j != k
+                                 and net_ref.level(a) == net_ref.level(old) and net_ref.parent(a) == par
+                                 and (a >> sh) & 7 < (old >> sh) & 7 and joiners[j].obj.node_address == a]
+                        if cands:
+                            frame = net_ref.pack_header(0o4444 if par == 0 else par, 0, 0x7777, 195, cands[0])
+                            master.radio.inject_rx(0 if par == 0 else 1, frame)
+                            ctx.count("duplicate_requests_injected")
+                            pump_until(nn, wn.t + 250 * W.MS)
+                            wait_quiet(nn)
                     r["cc_after_release"] = net.call(nn, "check_connection", o.check_connection, deadline_ms=3000)
                     r["rejoin"] = net.call(nn, "renew_address", o.renew_address, T, deadline_ms=(T + 2.5) * 1000)
                     r["old"] = old
@@ -266,6 +282,28 @@ def _run(ctx, case, net):
     if tinv["bad"]:
         ctx.violation("master-table-invariant", tinv["bad"], case)
         return
+    # ---- the C13 clause seen in mesh traffic: a routed frame of an acknowledged type (65..191)
+    # is answered with a NETWORK_ACK "back to the origin", i.e. to header.from_node - so a frame
+    # the master originates (bytes never seen on the air before) must name the master there
+    seen_bytes = set()
+    for p in net.air.log:
+        if p.kind != "data" or len(p.payload) < 8:
+            continue
+        pl = bytes(p.payload)
+        if pl in seen_bytes:
+            continue
+        seen_bytes.add(pl)
+        if p.src is not master.radio:
+            continue
+        h = net_ref.unpack_header(pl)
+        if 65 <= h["type"] <= 191 and h["to"] not in (0o4444, 0o100):
+            ctx.clause("master_frames_name_master_as_origin")
+            if h["from"] != 0:
+                ctx.violation("ack-typed-frame-with-foreign-origin", "the master originated a type-%d frame "
+                              "for %s whose header names %s as origin: the NETWORK_ACK for it goes there "
+                              "instead of back to the master (which waits out route_timeout)"
+                              % (h["type"], oct(h["to"]), oct(h["from"])), case)
+                return
     table = dict(master.obj.dhcp_dict)
     for k in ids:
         r = res[k]
